@@ -508,7 +508,8 @@ argument
     |   argument_list
     |   argument_list L_DOT_DOT_DOT
         {
-            int x = type_of_locals_ptr[max_num_locals-1];
+            /* no argument was added when no local variables are allowed at all */
+            int x = max_num_locals > 0 ? type_of_locals_ptr[max_num_locals-1] : TYPE_ANY;
 
             $$ = $1;
             $$.flags |= ARG_IS_VARARGS;
